@@ -21,7 +21,7 @@ package core
 import (
 	"errors"
 	"fmt"
-	"net"
+	"net/netip"
 	"net/url"
 	"slices"
 	"strings"
@@ -67,7 +67,8 @@ func ParsePublicURLWithScheme(input string, allowReserved bool, allowedSchemes .
 	if len(allowedSchemes) > 0 && !slices.Contains(allowedSchemes, parsed.Scheme) {
 		return nil, fmt.Errorf("scheme must be %s", strings.Join(allowedSchemes, " or "))
 	}
-	if net.ParseIP(parsed.Hostname()) != nil && !allowReserved {
+	// netip.ParseAddr (unlike net.ParseIP) also recognizes IPv6 addresses with a zone, e.g. https://[fe80::1%25eth0]
+	if _, ipErr := netip.ParseAddr(parsed.Hostname()); ipErr == nil && !allowReserved {
 		return nil, errors.New("hostname is IP")
 	}
 	if !allowReserved && isReserved(parsed) {
